@@ -2,6 +2,7 @@ import Poly.Proofs.MerkleTree
 import Poly.Proofs.MerkleServe
 import Poly.Proofs.MerkleStore
 import Poly.Proofs.MerkleComplete
+import Poly.Proofs.MerkleCons
 /-!
 # C06 — Block-hash accumulator is a correct append-only Merkle tree
 
@@ -157,6 +158,36 @@ theorem generated_inclusion_accepted (D : List (List UInt8)) (isFile : Bool) (s 
   have := verifyInclusion_complete H ((D.map (hashLeaf H)).take n) m _ hx
   have hl : ((D.map (hashLeaf H)).take n).length = n := by simp; omega
   rwa [hl] at this
+
+/-- `ConsistencyProof(m, n)` between any two sizes `1 ≤ m ≤ n ≤ |D|` is the RFC 6962 consistency proof
+`PROOF(m, D[0:n])`, read back from the store by position. (For `m = 0` the RFC defines no proof; the code
+then reads store position `0xFFFFFFFF`: modelled and exercised by the correspondence, see the registry.) -/
+theorem consistency_gen_correct (D : List (List UInt8)) (isFile : Bool) (s : State) (m n : Nat)
+    (h : State.appendAll H ⟨emptyTree, freshStore isFile⟩ D = .ok s) (hm1 : 1 ≤ m) (hmn : m ≤ n) (hn : n ≤ D.length) :
+    consistencyProof H s m n = .ok (some (proof H m ((D.map (hashLeaf H)).take n))) := by
+  obtain ⟨s', h', hi⟩ := sinv_appendAll H D [] ⟨emptyTree, freshStore isFile⟩
+    (sinv_empty H _ (by intro x hx; simp [freshStore] at hx; subst hx; rfl))
+  rw [h] at h'; cases h'
+  simp only [List.nil_append] at hi
+  obtain ⟨_, st, hst, _, _⟩ := store_postorder H D isFile s h
+  exact Poly.Proofs.MerkleCons.consistencyProof_eq_proof H _ s st m n hi hst hm1 hmn (by simpa using hn)
+
+/-- The node's own verifier accepts the RFC 6962 consistency proof between any two sizes `1 ≤ m ≤ n`. -/
+theorem verify_consistency_complete (L : List Hash) (m : Nat) (hm1 : 1 ≤ m) (hmn : m ≤ L.length) :
+    verifyConsistency H m L.length (mth H (L.take m)) (mth H L) (proof H m L) = .ok () :=
+  Poly.Proofs.MerkleCons.verifyConsistency_complete H L m hm1 hmn
+
+/-- Hence: the consistency proof generated between any two sizes `1 ≤ m ≤ n ≤ |D|` is accepted by
+`VerifyConsistency` against the roots of the first `m` and the first `n` leaves. -/
+theorem generated_consistency_accepted (D : List (List UInt8)) (isFile : Bool) (s : State) (m n : Nat)
+    (h : State.appendAll H ⟨emptyTree, freshStore isFile⟩ D = .ok s) (hm1 : 1 ≤ m) (hmn : m ≤ n) (hn : n ≤ D.length) :
+    ∃ p, consistencyProof H s m n = .ok (some p) ∧
+      verifyConsistency H m n (mth H ((D.map (hashLeaf H)).take m)) (mth H ((D.map (hashLeaf H)).take n)) p = .ok () := by
+  refine ⟨_, consistency_gen_correct H D isFile s m n h hm1 hmn hn, ?_⟩
+  have hl : ((D.map (hashLeaf H)).take n).length = n := by simp; omega
+  have := Poly.Proofs.MerkleCons.verifyConsistency_complete H ((D.map (hashLeaf H)).take n) m hm1 (by omega)
+  rw [hl, List.take_take, Nat.min_eq_left hmn] at this
+  exact this
 
 /-- `MerkleInclusionLeafPath(data, m, n)` for the `m`-th appended leaf verifies with `MerkleProve` against
 the root of the first `n` leaves and yields the leaf data. -/
